@@ -140,11 +140,10 @@ let jd_model (j : jd) : (jdres * int) option =
   let has_bad = jd_spec_fails j.d_items in
   if jd_seekable j && not has_bad && j.d_passes <> 1 then begin
     let a = int_of_nat (jd_count_ammo j.d_items) in
-    if j.d_passes = 0 && j.d_limit = 0 && a > 0 && not (jd_eof_with_data j) then None
-    (* short reads of a source that hands its LAST data out with io.EOF: how much of the pass is decoded when the end
-       comes depends on where the reads cut the objects -- below the model's granularity, not predicted *)
-    else if jd_eof_with_data j && j.d_chunked && a > 0 then None
+    if j.d_passes = 0 && j.d_limit = 0 && a > 0 then None
     else
+      (* a source that hands its last data out with io.EOF: at most all of the pass's ammo are still undecoded when the
+         end comes (short reads: fewer; the model of the tree does not depend on it, the guard keeps the io.EOF back) *)
       let pend = if jd_eof_with_data j then a else 0 in
       let (r, d) = jd_passes (nat_of_int 10000) jd_current (nat_of_int j.d_passes) (nat_of_int j.d_limit) (nat_of_int a)
                      (nat_of_int pend) (j.d_items <> []) (nat_of_int 0) (nat_of_int 0) (nat_of_int 0) in
